@@ -165,6 +165,12 @@ class OutgoingRIB(Cache):
         for route in self.cached_routes(list(self.families)):
             self.add_to_rib(route, True)
 
+        if not self.cache:
+            # 'adj-rib-out false': nothing remembers what the previous session was sent, and the queue was
+            # emptied when it ended; the configured routes at least are known, and are advertised again
+            for route in new:
+                self.add_to_rib(route, True)
+
         for index in list(indexed):
             self.del_from_rib(indexed.pop(index))
 
